@@ -8,7 +8,7 @@ META = {
              'and sibling order by independent source positions; then the full parameter product all in {True, False, type, set of types, callable} x on in '
              '{enter, leave, both} x back x self_ x recurse compared with the order derived from the validated walk and the pure-AST parent map; '
              'step_fwd/step_back chains, next/prev inverse law per filter, next_child/prev_child chains, first/last_child, send(False)/send(True), '
-             'child_path/child_from_path bijection. A cell is (check, parameter combination, root node class mix).'),
+             'child_path/child_from_path bijection. A cell is (check, parameter combination, root node class mix). GRAMMAR includes generated calls / class headers mixing positionals, *stars, keywords and **unpacks in every order CPython accepts, all-positional-only parameter lists and Dicts with ** unpacks at every index.'),
     'budget': {'quick': 40, 'thorough': 600},
     'floors': {'quick': {'programs': 150, 'walk_param_combos': 5000, 'nextprev_pairs': 20000, 'paths_checked': 20000},
                'thorough': {'programs': 1500, 'walk_param_combos': 50000, 'nextprev_pairs': 200000, 'paths_checked': 200000}},
